@@ -153,7 +153,12 @@ impl EventGen for Container {
                     // inner_text implies no processable events; use as-is
                     (inner_events.into(), None)
                 } else {
-                    process_events(inner_events, context)?
+                    // variables (and defaults) set inside the element's content end with
+                    // it, as they do for `<g>`
+                    context.push_scope();
+                    let inner = process_events(inner_events, context);
+                    context.pop_scope();
+                    inner?
                 };
                 events.extend(&evlist);
                 events.push(OutputEvent::End(self.0.name.clone()));
